@@ -379,6 +379,32 @@ theorem _mutual_info_score_eq_model {α : Type} [Transc α] (yr ye : List Nat) :
       simp
   · simp only [if_pos hl, error_bind]
 
+/-- **`_normalized_mutual_info_score` as translated = the hand model's `nmiIdx`** (its first component), at every
+    number type: the early `1.0` of two one-cluster (or two empty) labellings, else
+    `mi / max(sqrt(H(ref) * H(est)), 1e-10)` with the translated `_mutual_info_score` and `_entropy`. -/
+theorem _normalized_mutual_info_score_eq_model {α : Type} [Transc α] (yr ye : List Nat) :
+    Mir.Gen.segment._normalized_mutual_info_score (α := α) yr ye =
+      if miSpecial yr ye then .ok (Transc.ofNat 1) else (do checkLen yr ye; pure (nmiIdx yr ye).1) := by
+  unfold Mir.Gen.segment._normalized_mutual_info_score miSpecial
+  simp only [Bool.or_eq_true, Bool.and_eq_true, decide_eq_true_eq]
+  simp only [PyM.unique_eq, PyM.shape0_eq]
+  refine if_ctx_congr ?_ (fun _ => rfl) (fun hs => ?_)
+  · omega
+  · rw [_contingency_matrix_eq_model]
+    unfold contingencyPy checkLen
+    by_cases hl : yr.length = ye.length
+    · simp only [if_neg (not_not.2 hl), ok_bind]
+      rw [_mutual_info_score_precomputed, _entropy_eq_model, _entropy_eq_model]
+      · simp only [ok_bind]
+        unfold nmiIdx mutualInfoIdx
+        rw [if_neg hs]
+        rfl
+      · intro r hr
+        simp only [contingency, List.mem_map] at hr
+        obtain ⟨a, _, rfl⟩ := hr
+        simp
+    · simp only [if_pos hl, error_bind]
+
 /-- **the body of `nce` as translated = the hand model's `nceIdx`** (beta cast by `Transc.ofRat`), at every number
     type, for all index vectors, both values of `marginal`. -/
 theorem nce_core_eq_model {α : Type} [Transc α] (yr ye : List Nat) (beta : ℚ) (marginal : Bool) :
@@ -467,6 +493,19 @@ theorem gen_mi_textbook (yr ye : List Nat) (h : yr.length = ye.length) :
   · rw [_mutual_info_score_eq_model, _mutual_info_score_eq_model, checkLen_pure h, checkLen_pure h.symm,
       Mir.C16.mi_symm yr ye h]
   · rw [← e1]; exact Mir.C16.mi_textbook yr ye h
+
+/-- **nmi_textbook (translated).** Outside the early return and over the reals the translated
+    `_normalized_mutual_info_score` returns `MI / max(√(H(ref)·H(est)), 1e-10)`; in the early return `1`. -/
+theorem gen_nmi_textbook (yr ye : List Nat) (h : yr.length = ye.length) :
+    Mir.Gen.segment._normalized_mutual_info_score (α := ℝ) yr ye = .ok
+      (if miSpecial yr ye then 1 else miSum yr ye / max (Real.sqrt (shannon yr * shannon ye)) (1 / 10 ^ 10)) := by
+  rw [_normalized_mutual_info_score_eq_model]
+  by_cases hs : miSpecial yr ye
+  · simp only [if_pos hs]
+    have : (Transc.ofNat 1 : ℝ) = 1 := by simp [Transc.ofNat]
+    rw [this]
+  · simp only [if_neg hs]
+    rw [checkLen_pure h, Mir.C16.nmi_textbook yr ye h hs]
 
 /-- **nce_textbook (translated).** Over the reals the translated body of `nce` returns
     `S_over = 1 − H₂(est | ref) / Z_est`, `S_under = 1 − H₂(ref | est) / Z_ref` and `util.f_measure` of the two
